@@ -50,6 +50,19 @@ struct Plain { a: u8, b: u32, c: (u16, u8) }
 #[derive(Debug, PartialEq, Clone, Copy)]
 struct Tup(u8, (u32, u8), [u16; 2]);
 
+/// F10 regression: a user trait with a method called `len`, implemented for arrays, is in scope
+/// where the array macros are invoked; they must not pick it up
+mod hijack {
+    pub trait Shape { fn len(&self) -> usize; fn next(&self) -> usize; }
+    impl<T, const N: usize> Shape for [T; N] { fn len(&self) -> usize { 0 } fn next(&self) -> usize { 0 } }
+    pub const fn mapped() -> [u64; 3] { konst::array::map!([1u64, 2, 3], |x| x + 1) }
+    pub const fn made() -> [usize; 4] { konst::array::from_fn!(|i| i * 2) }
+    pub const fn mapped_val() -> [u32; 2] { konst::array::map_!([5u32, 6], |x| x * 2) }
+    pub const fn made_val() -> [u8; 3] { konst::array::from_fn_!(|i| i as u8 + 1) }
+    pub const fn collected() -> [u8; 2] { konst::iter::collect_const!(u8 => &[1u8, 2, 3], copied(), skip(1)) }
+    pub const fn concatenated() -> [u8; 3] { konst::slice::slice_concat!(u8, &[&[1], &[2, 3]]) }
+}
+
 const fn d_p1(p: P1) -> (u8, u32, u64) { konst::destructure!{P1(a, b, c) = p} (a, b, c) }
 const fn d_p2(p: P2) -> (u8, u32, u64) { konst::destructure!{P2(a, b, c) = p} (a, b, c) }
 const fn d_p4(p: P4) -> (u8, u64, u16) { konst::destructure!{P4{a, b, c} = p} (a, b, c) }
@@ -340,6 +353,12 @@ for c in ["'a'", "'\\u{7f}'", "'\\u{80}'", "'\\u{7ff}'", "'\\u{800}'", "'\\u{d7f
 for n in ["0", "0x7f", "0xd7ff", "0xd800", "0xdfff", "0xe000", "0x10ffff", "0x110000", "u32::MAX"]:
     case("chr", "Option<char>", "chr::from_u32(%s)" % n)
 # array builders
+case("array", "[u64; 3]", "hijack::mapped()")
+case("array", "[usize; 4]", "hijack::made()")
+case("array", "[u32; 2]", "hijack::mapped_val()")
+case("array", "[u8; 3]", "hijack::made_val()")
+case("array", "[u8; 2]", "hijack::collected()")
+case("array", "[u8; 3]", "hijack::concatenated()")
 case("array", "[u16; 5]", "array::map!(ARR, |x| x + 1)")
 case("array", "[u8; 0]", "array::map!([0u8; 0], |x: u8| x + 1)")
 case("array", "[usize; 4]", "array::from_fn!(|i| i * i)")
@@ -392,6 +411,18 @@ for s in ['"  12,aé;x "', '"7,"', '"x"', '"  300,é"', '"18446744073709551616,"
     case("parser", "(u64, usize, usize, usize)", "parser_seq(%s)" % s)
 for s in ['"aé-b;c"', '"abc"', '";é"', '"é;"']:
     case("parser", "(usize, usize, usize)", "parser_back(%s)" % s)
+# Parser: zero-length and over-long skips at both ends (the boundary scan must not look outside)
+for s0 in ['"a"', '"é"', '""', '"ab-é"']:
+    for op in ["skip(0)", "skip_back(0)", "skip(1)", "skip_back(1)", "skip(BIG)", "skip_back(BIG)", "skip(1).skip_back(0)", "skip_back(1).skip(0)"]:
+        case("parser", "(usize, usize, usize)", "{ let p = Parser::new(%s).%s; (p.start_offset(), p.end_offset(), p.remainder().len()) }" % (s0, op))
+# parser_method! in a const fn: every form, with a match, without, and with an empty literal
+for (form, arms) in [("strip_prefix", '"a" | "é" => 1, "" => 2, _ => 0'), ("strip_suffix", '"a" | "é" => 1, "" => 2, _ => 0'), ("strip_prefix", '"zz" => 1, _ => 0'), ("strip_suffix", '"zz" => 1, _ => 0'),
+                      ("find_skip", '"-" => 1, "é" => 2, _ => 0'), ("rfind_skip", '"-" => 1, "é" => 2, _ => 0'), ("find_skip", '"zz" => 1, _ => 0'), ("rfind_skip", '"zz" => 1, _ => 0')]:
+    for s0 in ['"a-é"', '"é-a"', '""', '"x"']:
+        case("pm", "(u8, usize, usize, usize)", "{ let mut p = Parser::new(%s); let b: u8 = konst::parser_method!{p, %s; %s}; (b, p.start_offset(), p.end_offset(), p.remainder().len()) }" % (s0, form, arms))
+for (form, arms) in [("trim_start_matches", '"a" | "-"'), ("trim_end_matches", '"a" | "-"'), ("trim_start_matches", '"zz"'), ("trim_end_matches", '"zz"')]:
+    for s0 in ['"a-a-é-a"', '"x"', '""', '"aa"']:
+        case("pm", "(usize, usize, usize)", "{ let mut p = Parser::new(%s); konst::parser_method!{p, %s; %s}; (p.start_offset(), p.end_offset(), p.remainder().len()) }" % (s0, form, arms))
 # integer / bool parsing
 for (f, s) in [("parse_u8", '"255"'), ("parse_u8", '"256"'), ("parse_i8", '"-128"'), ("parse_i8", '"-129"'), ("parse_u64", '"00018446744073709551615"'),
                ("parse_i128", '"-170141183460469231731687303715884105728"'), ("parse_usize", '""'), ("parse_i32", '"+1"'), ("parse_u16", '"12a"')]:
@@ -426,6 +457,16 @@ case("range", "[u8; 3]", "iter::collect_const!(u8 => 250.., take(3))")
 # comparisons / option / result
 case("cmp", "(bool, core::cmp::Ordering, core::cmp::Ordering)", '(kstr::eq_str("aé", "aé"), kstr::cmp_str("ab", "b"), kstr::cmp_str("abc", "ab"))')
 case("cmp", "(bool, core::cmp::Ordering)", "(ks::eq_bytes(&[1, 2], &[1, 2]), ks::cmp_bytes(&[2], &[1, 1]))")
+# comparisons of slices / strings of 8, 9, 16, 33 elements (a word-at-a-time loop starts there)
+for n in [8, 9, 16, 33]:
+    a = "&[" + ", ".join(str(i % 7) for i in range(n)) + "]"
+    b = "&[" + ", ".join(str(i % 7 if i != n - 2 else 9) for i in range(n)) + "]"
+    sa = '"' + "".join("abcdefg"[i % 7] for i in range(n)) + '"'
+    sb = '"' + "".join("abcdefg"[i % 7] if i != n - 2 else "z" for i in range(n)) + '"'
+    case("cmp", "(bool, bool, core::cmp::Ordering)", "(ks::eq_bytes(%s, %s), ks::eq_bytes(%s, %s), ks::cmp_bytes(%s, %s))" % (a, a, a, b, a, b))
+    case("cmp", "(bool, bool, core::cmp::Ordering)", "(kstr::eq_str(%s, %s), kstr::eq_str(%s, %s), kstr::cmp_str(%s, %s))" % (sa, sa, sa, sb, sa, sb))
+    case("cmp", "(bool, core::cmp::Ordering, bool)", "(konst::slice::cmp::eq_slice_i8(%s, %s), konst::slice::cmp::cmp_slice_u16(%s, %s), konst::slice::cmp::eq_slice_bool(&[true; %d], &[true; %d]))" % (a, b, a, b, n, n))
+    case("cmp", "(bool, core::cmp::Ordering)", "(konst::const_eq!(%s, %s), konst::const_cmp!(%s, %s))" % (sa, sb, sa, sb))
 case("optres", "(u8, u8, Option<u8>, Result<u8, u8>)", "(option::unwrap_or!(None::<u8>, 5), option::unwrap_or_else!(Some(3u8), || 9), option::map!(Some(2u8), |x| x * 2), option::ok_or!(None::<u8>, 7u8))")
 case("optres", "(u8, Option<u8>, Result<u8, u16>)", "(result::unwrap_or!(Err::<u8, u8>(1), 4), result::ok!(Ok::<u8, u8>(6)), result::map_err!(Err::<u8, u8>(2), |e| e as u16 * 300))")
 
